@@ -2,7 +2,7 @@
 # usage: tools/run_seeds.sh [seed-id ...]   -- applies each seeded change to a scratch worktree of /repo (never /repo itself),
 # runs the check of its property there, prints exit code and VIOLATION lines, removes the worktree.
 cd "$(dirname "$0")/.."
-seeds=("$@"); [ ${#seeds[@]} -eq 0 ] && seeds=($(ls seeded))
+seeds=("$@"); [ ${#seeds[@]} -eq 0 ] && seeds=($(ls -d seeded/*/ | xargs -n1 basename))
 wt=$(mktemp -d /tmp/seedrun_XXXX); rmdir "$wt"
 git -C /repo worktree add -q --detach "$wt" HEAD || exit 3
 out=$(mktemp -d /tmp/seedout_XXXX)
